@@ -155,9 +155,10 @@ def generate(rng, prop, tier):
         values = list(values) + [{'$big': 'rep'}, {'$big': 'hex'}, {'$big': 'hex'}]
     cached = (prop == 'C03' and rng.chance(0.08))
     nsib = rng.weighted([(5, 0), (4, 1), (2, 2)]) if label != 'sql-mem' else 0
+    tname = B.odd_name(rng, label, 'a')
     case = {
         'engine': 'archsim', 'prop': prop,
-        'backend': B.config(label, 'a0'),
+        'backend': B.config(label, tname if tname != 'a' else 'a0'),
         'cached': cached,
         'siblings': [B.config(label, 'a%d' % (i + 1)) for i in range(nsib)],
         'order': rng.choice(['sorted', 'permute', 'reverse']),
